@@ -120,6 +120,10 @@ func addSeeds(f *testing.F, seeds [][]byte) {
 	for _, s := range seeds {
 		f.Add(s)
 	}
+	// one-byte CBOR simple values and the self-described null: the CBOR layer's "no value" forms
+	for _, s := range [][]byte{{0xf6}, {0xf7}, {0xd9, 0xd9, 0xf7, 0xf6}, {0xa0}, {0x80}} {
+		f.Add(s)
+	}
 }
 
 // notMine: as a plain test every shard sees the whole seed corpus (so that seed#N names the same
